@@ -68,7 +68,7 @@ UNIT = Unit(
            contract=''),
     ],
     template=TEMPLATE,
-    jobs=[Job('applyGrouping_gs%d' % k, 'h_applyGrouping', dfcc=False, cls='B', unwind=26, reach='all', timeout=600, min_obligations=8, defines=('XV_GS=%d' % k,), thorough_only=(k in (2, 4)),
+    jobs=[Job('applyGrouping_gs%d' % k, 'h_applyGrouping', dfcc=False, cls='B', unwind=26, reach='all', timeout=1500, min_obligations=8, defines=('XV_GS=%d' % k,), thorough_only=(k in (2, 4)),
               bound_note='digit strings of at most 24 units, grouping size %d, separator of one unit' % k) for k in (1, 2, 3, 4, 30)],
     mutants=[
         Mutant('separator_after_complete_group', NF, r'const XalanDOMChar      c = value\[ix\];\s*if \(i && !\(i% m_groupingSize\)\)(\s*\{.*?\})\s*\*p-- = c;', r'*p-- = value[ix];\n\n                if (!((i + 1) % m_groupingSize))\1', expect=None),
